@@ -16,7 +16,7 @@
 From Coq Require Import String.
 From Coq Require Import ZArith List Bool Ascii Lia.
 Import ListNotations.
-From Inf Require Import gen.ParamsC13 model.ReadersM proofs.ReadersP.
+From Inf Require Import gen.ParamsC13 model.ReadersM proofs.ReadersP proofs.ReadersTrrP.
 Open Scope string_scope.
 Open Scope Z_scope.
 
@@ -154,14 +154,7 @@ Theorem C13_trr_gromacs_constants : forall h lay,
    Forall (ev_safe h lay) (snd (trr_finish lay st (layout_size lay))) /\
    yields (snd (trr_run trr_head_size lay trr_init sizes) ++ snd (trr_finish lay st (layout_size lay))) =
    seq 0 (length lay)).
-Proof.
-  intros h lay Hh Hlay sizes Hs.
-  assert (H0 : 0 < h) by (destruct Hh as [-> | ->]; reflexivity).
-  assert (H1 : h <= trr_head_size) by (destruct Hh as [-> | ->]; discriminate).
-  destruct (trr_never_reads_past_size trr_head_size h lay H0 H1 Hlay sizes Hs) as (A & B & C).
-  split; [exact A|]. split; [exact B|]. split; [exact C|].
-  exact (trr_quiescent_complete trr_head_size h lay H0 H1 Hlay sizes Hs).
-Qed.
+Proof. exact trr_gromacs_constants. Qed.
 Print Assumptions C13_trr_gromacs_constants.
 
 (* ---------------------------------------------------------------- the readers before the repair (lead L1) *)
